@@ -250,6 +250,10 @@ class Interp:
             return m(self, *args, **kwargs)
         if isinstance(fn, type) and issubclass(fn, BaseException):
             return ExcVal(fn, args)
+        if isinstance(fn, Obj) and fn.cls is not None:
+            f = fn.cls.lookup("__call__")
+            if f is not None:
+                return self.call_func(f, [fn] + list(args), kwargs, self_obj=fn)
         if callable(fn) and getattr(fn, "_pyvc_model", False):
             return fn(self, *args, **kwargs)
         raise Unsupported(f"call of {fn!r}")
@@ -612,7 +616,7 @@ class Interp:
         if g is True:
             return
         src = ast.unparse(st.test)
-        ok = self.path.prove(g, site, kind="assert", desc=f"assert {src}")
+        ok = self.path.prove(g, site, kind="assert", desc=f"assert {src}", props=self.config.get("implicit_props"))
         # continue under the assumption (obligation + continue, DESIGN §2.6)
         self.path.assume(g if not isinstance(g, bool) else g)
 
@@ -708,6 +712,14 @@ class Interp:
     def _loop_with_invariant(self, st, frame, spec, site):
         """while-loop under a sidecar invariant: establish / havoc+assume / body once / preserve."""
         spec.establish(self, frame, site)
+        # the body is explored from the havoc state once per configuration signature: later prologue
+        # paths with the same signature only have to establish the invariant
+        sig = (site, spec.signature(self, frame))
+        done = self.path.ex.shared.setdefault("loops", {})
+        here = tuple(self.path.decisions)
+        if sig in done and done[sig] != here:
+            raise PathEnd()
+        done[sig] = here
         spec.havoc(self, frame, site)
         if not self.truth(self.eval(st.test, frame)):
             self.exec_block(st.orelse, frame)
@@ -730,7 +742,7 @@ class Interp:
         # arbitrary iteration k
         if self.path.choose(f"{site}:iter-or-exit"):
             k = self.path.int("k")
-            self.path.index_term(k)
+            self.path.index_term(k, n)
             self.path.assume(z3.And(k >= 0, k < n))
             spec.havoc(self, frame, site, k, n)
             self.assign(st.target, item_at(k), frame)
